@@ -157,7 +157,20 @@ func load(spec *Spec) *loaded {
 			src := mustRead(filepath.Join(verifRoot, "harness", spec.Property, f))
 			ov[filepath.Join(dir, "zz_verif_"+filepath.Base(f))] = []byte(src)
 		}
-		for _, rf := range u.RewriteGo {
+		rewrite := u.RewriteGo
+		if len(rewrite) == 1 && rewrite[0] == "*" {
+			rewrite = nil
+			ents, _ := os.ReadDir(dir)
+			for _, en := range ents {
+				nm := en.Name()
+				if strings.HasSuffix(nm, ".go") && !strings.HasSuffix(nm, "_test.go") {
+					if b, err := os.ReadFile(filepath.Join(dir, nm)); err == nil && bytes.Contains(b, []byte("\tgo ")) {
+						rewrite = append(rewrite, nm)
+					}
+				}
+			}
+		}
+		for _, rf := range rewrite {
 			path := filepath.Join(dir, rf)
 			out, err := rewriteGoStmts(path)
 			if err != nil {
